@@ -35,6 +35,11 @@ THEOREMS = [
     "Optyx.Props.C04.degreeIter_eq",
     "Optyx.Props.C04.computeDegree_threshold_irrelevant",
     "Optyx.Props.C04.degree_property_cache",
+    "Optyx.Props.C04.degree_sound_of_source_equations",
+    "Optyx.Props.C04.source_equations_solvable",
+    "Optyx.Props.DegreeTie.degree_step",
+    "Optyx.Props.DegreeTie.vecDegree_step",
+    "Optyx.Props.DegreeTie.step_unique",
 ]
 ASSUMPTIONS = [
     "theorems are over the reals with NumAlg ℝ (pow = Real.rpow); x / Constant(0) is excluded by NoConstDivZero "
